@@ -225,7 +225,8 @@ PROPS["C12"] = dict(
                "latest version of every prefix of the history, i.e. of every pinned lookup (pinned_preserved); what remains is an order-preserving sublist without adjacent duplicates "
                "(feed_sublist, no_adjacent_dups). The key-level model of the compactor (version, change-log, latest-pointer and reference keys) is compared with the real compactor "
                "on histories with injected duplicates for all flush thresholds, including compactors killed between flushes; its eval/flush shape is a regenerated fact. PARTIAL for racing writers (finding D14); "
-               "kills between flushes are covered by the fault runs, not by a theorem.",
+               "a compaction killed after any subset of its removals has lost nothing but versions, shows the same latest and pinned content and is completed by a second run to exactly the "
+               "undisturbed result (partial_compaction_invisible, spec level), and the real compactor is killed after its n-th flush in the fault runs.",
     level_note="Trusted: Lean kernel, factgen, badger. `recorded` of a removed duplicate is replaced by its identical predecessor's and is not compared.",
 )
 
